@@ -63,6 +63,10 @@ impl Stats {
     }
     pub fn note_text(&mut self, table_salt: u64, text: &str) {
         use std::hash::{Hash, Hasher};
+        // memory cap: beyond 2 million entries per worker the count becomes a lower bound
+        if self.text_hashes.len() >= 2_000_000 {
+            return;
+        }
         let mut h = std::collections::hash_map::DefaultHasher::new();
         table_salt.hash(&mut h);
         text.hash(&mut h);
